@@ -118,6 +118,18 @@ func perturbQuote(q []byte, pr *ProbeRec, perturb string, k int) ([]byte, bool) 
 			return q, false
 		}
 		add16(q, lo+6, 256*k)
+	case "qtype":
+		// the quoted message is of another ICMP kind that also carries an identifier and a sequence
+		// number in bytes 4..8 (timestamp, information, address mask) or does not (redirect, router
+		// solicitation): the run's id/seq are there, but it is not a quote of an echo request
+		if proto != codec.ProtoICMP && proto != codec.ProtoICMPv6 {
+			return q, false
+		}
+		if proto == codec.ProtoICMP {
+			q[lo] = []byte{13, 15, 17, 5, 10, 14}[nz(k)%6]
+		} else {
+			q[lo] = []byte{130, 133, 135, 1, 139, 3}[nz(k)%6]
+		}
 	case "ipid":
 		if !v4 || proto == codec.ProtoICMP {
 			return q, false
